@@ -38,7 +38,7 @@ func init() {
 			`R19.3 every worker sends exactly one result on every path and the parent collects them; R19.4 the set of finished entries behind the marker is keyed by the entry index itself, not by a reduction of it; R19.5 no function of package archiver that changes the tree (removes, creates, renames) examines a path with os.Stat, which follows links - entries are examined with Lstat, so that re-extraction over an existing tree stays idempotent for links. ` +
 			`R19.6 functions of package archiver that walk a tree to archive it never refer to filepath.SkipDir / SkipAll; R16.8 (shared) workers are waited for only after they were released. ` +
 			`R19.7 no strings.HasPrefix/HasSuffix/Contains(x, "..") in package archiver (a test of characters where path elements are meant; legal names such as ..data would be refused). ` +
-			`R19.8 a removal in archiver.Mkdir is reached only through the nil outcome of an Lstat and the outcome !IsDir() (workers make directories concurrently). R19.9 the bound of the loop that starts the extraction workers is at least 1 on every path: a constant >= 1, max(.., 1), or a value that reaches the loop through a test that made it so. R19.10 the per-entry literal of ExtractZip (the one calling two of Mkdir / Symlink / CopyFile) returns success only after one of them was called, DryRun apart, and ExtractZip itself calls none of them. NOT decided: tree equality, tar, symlink/dir recreation, and whether the marker value is a contiguous high-water mark (value-level; a lock is necessary, not sufficient).`,
+			`R19.8 a removal in archiver.Mkdir is reached only through the nil outcome of an Lstat and the outcome !IsDir() (workers make directories concurrently). R19.9 the bound of the loop that starts the extraction workers is at least 1 on every path: a constant >= 1, max(.., 1), or a value that reaches the loop through a test that made it so. R19.10 the per-entry literal of ExtractZip (the one calling two of Mkdir / Symlink / CopyFile) returns success only after one of them was called, DryRun apart, and ExtractZip itself calls none of them. R19.11 what package archiver hands to Symlink as a link's target does not go through Clean / Join / Abs / Rel / EvalSymlinks / Base / Dir. NOT decided: tree equality, tar, symlink/dir recreation, and whether the marker value is a contiguous high-water mark (value-level; a lock is necessary, not sufficient).`,
 		Assumptions: []string{
 			"state.Consumer and the OnEntryDone / OnUncompressedSizeKnown callbacks are assumed internally synchronised",
 			"slice element accesses are not tracked",
@@ -726,6 +726,7 @@ func runC19(c *core.Ctx) {
 	}
 	rulePoolHasAWorker(c, "R19.9", ez)
 	ruleEntryMadeBeforeDone(c, "R19.10", ez)
+	ruleLinkTargetsVerbatim(c, "R19.11", "/archiver", 2)
 	s := reportForkSite(c, "R19.1", ez, 1)
 	multi := false
 	var worker *forkUnit
